@@ -408,6 +408,10 @@ func corpus(pts []mc.PVal) [][]byte {
 	for v := 0; v < 256; v++ {
 		add([]byte{byte(v)})
 	}
+	// limb near misses of the curve equation and aliases spread over the whole non-canonical window
+	for _, b := range mc.SEC1Extras() {
+		add(b)
+	}
 	return out
 }
 
